@@ -213,6 +213,7 @@ pub fn scenarios(thorough: bool) -> Vec<Scenario> {
     for sc in v.iter_mut() {
         sc.key_opts.heads = true;
     }
+    v.push(uneven_heads_scenario("pair-heads-9-and-10", if thorough { 4 } else { 3 }, &[]));
     v.extend(cross_scenarios(thorough));
     v
 }
